@@ -9,7 +9,7 @@ import ast
 
 from ..affine import Aff, sym, NotAffine
 from ..astutil import (u, atoms, guard_map, path_atoms, stmts_in, calls_in, callee, callee_attr, reaching_def,
-                       def_value, PARAM, AMBIGUOUS, raised_name, walk_no_nested, get_arg)
+                       def_value, PARAM, AMBIGUOUS, raised_name, walk_no_nested, get_arg, binds)
 from ..mini import Mini, Return, Opaque
 from ..report import Undecided
 
@@ -696,7 +696,7 @@ def check_dtype_gate(ctx):
         """('gated', root) | ('raw', root) | ('other', text): where the value of e at statement `at` comes from."""
         if isinstance(e, ast.Call) and (u(e.func) == '__gate__' or m.resolve_call(f2, e) == GATE) and len(e.args) == 1 and not e.keywords:
             k, w = operand(f2, e.args[0], at, depth + 1)
-            return ('gated', w) if k == 'raw' else ('other', u(e))
+            return ('gated', w) if k == 'raw' else ('converted', w) if k == 'converted' else ('other', u(e))
         if isinstance(e, ast.Name) and depth < 6:
             d = reaching_def(f2.node, e.id, at)
             if d is PARAM:
@@ -717,8 +717,65 @@ def check_dtype_gate(ctx):
                 if v is not None:
                     return operand(f2, v, d, depth + 1)
         if isinstance(e, ast.Attribute):
+            conv = rebuilt_before(f2, e, at)
+            if conv is not None:
+                return ('converted', conv)
             return ('raw', u(e))
         return ('other', u(e))
+
+    def first_element_dtype(cls_q):
+        """Does the constructor of class cls_q store its elements in ONE array whose dtype, when none is given, is taken from the
+        first element (`dtype = <param>[0].dtype ...`)?  Read from the constructor itself; None = the rule cannot tell."""
+        init = m.classes[cls_q].methods.get('__init__') if cls_q in m.classes else None
+        if init is None:
+            return None
+        ps = init.params()
+        if 'dtype' not in ps or len(ps) < 2:
+            return None
+        seq = ps[1]
+        from_first = any(isinstance(n, ast.Attribute) and n.attr == 'dtype' and isinstance(n.value, ast.Subscript) and u(n.value.value) == seq
+                         and isinstance(n.value.slice, ast.Constant) and n.value.slice.value == 0 for n in ast.walk(init.node))
+        keeps = any(isinstance(n, ast.Call) and u(n.func) == 'list' and len(n.args) == 1 and u(n.args[0]) == seq for n in ast.walk(init.node))
+        if from_first and not keeps:
+            return True
+        if keeps:
+            return False        # the elements are kept as the arrays they are (each one is gated where it is used)
+        return None
+
+    def rebuilt_before(f2, e, at):
+        """An attribute operand X.a where X was (on some path) re-bound in this function to a collection BUILT from the caller's
+        sequences: the data then reach the gate only after that construction.  Returns a description when the construction
+        stores every element in the dtype of the first one (values of wider later elements are truncated before the gate sees
+        them), None when X is the caller's object; any other re-binding is outside what the rule can decide."""
+        base = e.value
+        if not isinstance(base, ast.Name):
+            return None
+        a_line = getattr(at, 'lineno', None)
+        for n in walk_no_nested(f2.node):
+            if isinstance(n, (ast.Assign, ast.AnnAssign)) and def_value(n) is not None and binds(n, base.id) \
+                    and (a_line is None or n.lineno < a_line or _in_loop_with(f2.node, n, at)):
+                v = def_value(n)
+                if isinstance(v, ast.Name):
+                    continue
+                if isinstance(v, ast.Call):
+                    cq = m.resolve_call(f2, v)
+                    if cq in m.classes:
+                        fe = first_element_dtype(cq)
+                        has_dtype = get_arg(v, 2, 'dtype') is not None
+                        if fe is True and not has_dtype:
+                            return f'{u(e)} with {base.id} = {u(v)[:60]}: {cq.rsplit(".", 1)[1]}(seq) stores every element in the dtype of seq[0]'
+                        if fe is False:
+                            continue
+                rep.require(False, f'{f2.qualname}: kernel operand {u(e)} after {base.id} is re-bound to {u(v)[:60]}')
+        return None
+
+    def _in_loop_with(func, n, at):
+        for loop in ast.walk(func):
+            if isinstance(loop, (ast.For, ast.While)):
+                inside = list(ast.walk(loop))
+                if any(x is n for x in inside) and any(x is at for x in inside):
+                    return True
+        return False
 
     ncalls = 0
     from ..inline import known_symbols
@@ -910,4 +967,8 @@ VARIANTS = [
       "\t\tif a <= b:\n\t\t\ti += 1\n\n\t\tif b <= a:\n\t\t\tj += 1\n\n\t\tu += 1\n"),
     V('E: literal dtype list', 'E', _P, "_COORDS_UNSIGNED_DTYPES = [np.dtype(f'u{s}') for s in [2, 4, 8]]",
       "_COORDS_UNSIGNED_DTYPES = [np.dtype('u2'), np.dtype('u4'), np.dtype('u8')]"),
+    V('every input collected into a SignatureArray of the first dtype (seeded C02d)', 'B', _P, '\tif isinstance(refs, SignatureArray):\n\t\tvalues = _cast_sigs_array(refs.values)\n\t\tbounds = refs.bounds.astype(BOUNDS_DTYPE, copy=False)\n\n\t\t_cmetric._jaccarddist_parallel(query, values, bounds, out)\n\n\telse:\n\t\tfor i, ref in enumerate(refs):\n\t\t\tref = _cast_sigs_array(ref)\n\t\t\tout[i] = _cmetric.jaccarddist(query, ref)\n',
+      '\tif not isinstance(refs, SignatureArray):\n\t\trefs = SignatureArray(refs)\n\tvalues = _cast_sigs_array(refs.values)\n\tbounds = refs.bounds.astype(BOUNDS_DTYPE, copy=False)\n\t_cmetric._jaccarddist_parallel(query, values, bounds, out)\n', 'M8'),
+    V('E: reference collection through an alias', 'E', _P, '\tif isinstance(refs, SignatureArray):\n\t\tvalues = _cast_sigs_array(refs.values)\n\t\tbounds = refs.bounds.astype(BOUNDS_DTYPE, copy=False)\n\n\t\t_cmetric._jaccarddist_parallel(query, values, bounds, out)\n\n\telse:\n\t\tfor i, ref in enumerate(refs):\n\t\t\tref = _cast_sigs_array(ref)\n\t\t\tout[i] = _cmetric.jaccarddist(query, ref)\n',
+      '\tarr = refs\n\tif isinstance(arr, SignatureArray):\n\t\tvalues = _cast_sigs_array(arr.values)\n\t\tbounds = arr.bounds.astype(BOUNDS_DTYPE, copy=False)\n\n\t\t_cmetric._jaccarddist_parallel(query, values, bounds, out)\n\n\telse:\n\t\tfor i, ref in enumerate(arr):\n\t\t\tref = _cast_sigs_array(ref)\n\t\t\tout[i] = _cmetric.jaccarddist(query, ref)\n'),
 ]
